@@ -831,6 +831,10 @@ pub fn c11(ctx: &Ctx) -> Report {
         rep.evaluations += n * 10;
         rep.transitions += n * 10;
     }
+    // the destination of a tick for every start phase (every 64th in the quick tier) at small, odd and large increments
+    for k in [1u32, 3, 1000, 16_385, 524_289, 4_194_303] {
+        walk_all(ctx, &mut rep, k, false, false, true, if ctx.tier.is_thorough() { Some(4) } else { Some(64) });
+    }
     long_runs(ctx, &mut rep, "C11");
     rep.mark("frequency grid");
     // (c)
